@@ -86,6 +86,23 @@ impl Zuc {
         z.lfsr(None);
         z
     }
+    /// start from an arbitrary register state (cells must be in [1, 2^31-1])
+    pub fn from_state(s: [u32; 16], r1: u32, r2: u32) -> Zuc {
+        Zuc { s, r1, r2, zero_feedback_init: 0, zero_feedback_work: 0 }
+    }
+    pub fn state(&self) -> ([u32; 16], u32, u32) {
+        (self.s, self.r1, self.r2)
+    }
+    /// one LFSR step: initialisation mode with Some(u), work mode with None
+    pub fn lfsr_step(&mut self, u: Option<u32>) {
+        self.lfsr(u)
+    }
+    /// BitReconstruction followed by F; returns (W, X0..X3)
+    pub fn br_f(&mut self) -> (u32, [u32; 4]) {
+        let x = self.bitreorg();
+        let w = self.f(x[0], x[1], x[2]);
+        (w, x)
+    }
     fn bitreorg(&self) -> [u32; 4] {
         let h = |v: u32| (v >> 15) & 0xFFFF; // high 16 bits of a 31-bit cell
         let l = |v: u32| v & 0xFFFF;
